@@ -109,14 +109,24 @@ Theorem C05_simulator_evolve_cache_refuted_old_code :
     = Some (1%nat, 1%nat, false).
 Proof. exact simulator_evolve_cache_old_code. Qed.
 Print Assumptions C05_simulator_evolve_cache_refuted_old_code.
-(* Simulator.probs(BasicState): now computed without a mask whatever probs_svd left in the engine; before bc7ab4f9 under
-   the leftover mask *)
-Theorem C05_simulator_probs_unmasked : forall h, snd (simm_step true (simm_run true h) SmProbs) = Some None.
-Proof. exact simulator_probs_unmasked. Qed.
+(* the unconditioned queries of the Simulator - probs(BasicState), probability, prob_amplitude - are computed without
+   a mask whatever an earlier probs_svd left in the engine; evolve under the mask its own configuration determines.
+   Before bc7ab4f9 (probs) and 7e0f70ac (probability, prob_amplitude) they ran under the leftover mask. *)
+Theorem C05_simulator_queries_unmasked : forall h q,
+  snd (simm_step true true (simm_run true true h) (SmQuery q)) = Some (simm_fresh (simm_run true true h) q).
+Proof. exact simulator_queries_unmasked. Qed.
+Print Assumptions C05_simulator_queries_unmasked.
+Theorem C05_simulator_probs_unmasked : forall h,
+  snd (simm_step true true (simm_run true true h) (SmQuery SqProbs)) = Some None /\
+  snd (simm_step true true (simm_run true true h) (SmQuery SqProbability)) = Some None /\
+  snd (simm_step true true (simm_run true true h) (SmQuery SqProbAmplitude)) = Some None.
+Proof. exact simulator_unconditioned_unmasked. Qed.
 Print Assumptions C05_simulator_probs_unmasked.
 Theorem C05_simulator_probs_refuted_old_code :
-  snd (simm_step false (simm_run false [SmHeralds 1; SmProbsSvd 1 true]) SmProbs) = Some (Some (1%nat, 1%nat)) /\
-  snd (simm_step false (simm_run false [SmHeralds 1]) SmProbs) = Some None.
+  snd (simm_step false false (simm_run false false [SmHeralds 1; SmProbsSvd 1 true]) (SmQuery SqProbs)) = Some (Some (1%nat, 1%nat)) /\
+  snd (simm_step true false (simm_run true false [SmHeralds 1; SmProbsSvd 2 true]) (SmQuery SqProbability)) = Some (Some (1%nat, 2%nat)) /\
+  snd (simm_step true false (simm_run true false [SmHeralds 1; SmProbsSvd 2 true]) (SmQuery SqProbAmplitude)) = Some (Some (1%nat, 2%nat)) /\
+  snd (simm_step false false (simm_run false false [SmHeralds 1]) (SmQuery SqProbs)) = Some None.
 Proof. exact simulator_probs_old_code. Qed.
 Print Assumptions C05_simulator_probs_refuted_old_code.
 
